@@ -187,8 +187,11 @@ CONSTANTS MinArity, MaxArity, Stride, Offset,
 \* reduced palette: a list, a vector, the empty / a non-ASCII / an ASCII string, a character, 0, -1, 100000, 2 -- the
 \* same object may occupy several positions (aliasing between arguments), and 0 and 2 are exactly the lengths of two
 \* of the strings (an index one past the end)
-RPal == <<2, 7, 9, 10, 11, 13, 14, 31, 39, 42>>
-NR == Len(RPal)
+RPal3 == <<2, 7, 9, 10, 11, 13, 14, 31, 39, 42>>
+\* four and five arguments: the seven-value palette (all tuples of the ten-value one would be five million calls)
+RPal45 == <<2, 7, 10, 11, 13, 14, 31>>
+RPalOf(a) == IF a <= 3 THEN RPal3 ELSE RPal45
+NRof(a) == Len(RPalOf(a))
 
 Mod(a, b) == a - b * (a \div b)
 RECURSIVE Pow(_, _)
@@ -210,11 +213,12 @@ Space(a) == NP * PerProc(a)
 Wide == {p \in 1..NP : LET sg == Sig(Names[p]) IN sg # Default /\ (sg.max = -1 \/ sg.max >= 3)}
 RInit == /\ Reduced
          /\ ar \in MinArity..MaxArity
-         /\ k \in {p * 100000 + x : p \in Wide, x \in 0..(Pow(NR, ar) - 1)}
+         /\ \E p \in Wide : \E x \in 0..(Pow(NRof(ar), ar) - 1) : k = p * 100000 + x
          /\ done = FALSE
 RCall == LET p == k \div 100000
              r == Mod(k, 100000)
-         IN [name |-> Names[p], a |-> [j \in 1..ar |-> RPal[Mod(r \div Pow(NR, j - 1), NR) + 1]]]
+             nr == NRof(ar)
+         IN [name |-> Names[p], a |-> [j \in 1..ar |-> RPalOf(ar)[Mod(r \div Pow(nr, j - 1), nr) + 1]]]
 
 Init == IF Reduced THEN RInit ELSE ar \in MinArity..MaxArity /\ k \in {x \in 0..((IF ar <= 2 THEN Space(ar) ELSE 1000000) - 1) : Mod(x, Stride) = Mod(Offset, Stride)} /\ done = FALSE
 
